@@ -30,8 +30,8 @@ ASSUMPTIONS = [
     "the relationship matrix is the one built by the dataset builder (sorted, no repeated pair); this is re-observed on every case",
 ]
 RULE = ("structured generator: 0-7 rows x 0-7 columns, density from empty to fully dense with planted dense and empty rows and unused columns, "
-        "row arrays with repeats (0-10 entries), both weightings (and the alias 'popularity'), n in {None,0,1,2,3,4}, verify on/off, retry budget "
-        "-1..5, draws from PCG64 (recorded) or scripted streams biased towards observed columns; non-trivial = verification on, at least one "
+        "1-4 sample_negatives calls on ONE matrix object (half of the later calls repeat the previous request), row arrays with repeats (0-10 entries), both weightings (and the alias 'popularity'), n in {None,0,1,2,3,4}, verify on/off, retry budget "
+        "-1..5, draws from PCG64 (recorded) or scripted streams biased towards observed columns; non-trivial = some call has verification on, at least one "
         "resampling round happened (more draws than cells) and at least one requested row has both observed and unobserved columns; distinct = "
         "by hash of the case")
 SHARD = 150
@@ -68,26 +68,47 @@ def gen_case(rng, malformed=False):
             elif u not in dense_rows and i not in dead_cols and rng.chance(*dens):
                 pairs.append([u, i])
     pairs = rng.shuffle(pairs)
-    nr = 0 if nu == 0 else rng.weighted([(0, 1), (1, 3), (2, 3), (3, 4), (5, 4), (8, 2), (10, 1)])
-    rows = [rng.below(nu) for _ in range(nr)]
-    if nr >= 2 and rng.chance(1, 3):
-        rows[1] = rows[0]
-    weighting = rng.weighted([("uniform", 5), ("popular", 3), ("popularity", 2)])
-    n = rng.weighted([(None, 5), (0, 1), (1, 2), (2, 3), (3, 2), (4, 1)])
-    att = rng.weighted([(-1, 1), (0, 3), (1, 4), (2, 4), (3, 3), (5, 2)])
-    verify = not rng.chance(1, 8)
-    mode = rng.weighted([("pcg", 2), ("scripted", 3)])
-    case = {"n_users": nu, "n_items": ni, "pairs": pairs, "rows": rows, "weighting": weighting, "n": n, "att": att,
-            "verify": verify, "mode": mode, "seed": rng.below(2 ** 32), "bias": rng.weighted([(0, 3), (1, 1), (2, 3), (3, 2)]),
-            "style": style}
+    def gen_call(prev=None):
+        if prev is not None and rng.chance(1, 2):
+            # the same request again (a training loop asks for the same users batch after batch), perhaps with other knobs
+            call = dict(prev)
+            call["seed"] = rng.below(2 ** 32)
+            if rng.chance(1, 3):
+                call["att"] = rng.weighted([(-1, 1), (0, 3), (1, 4), (2, 3)])
+            if rng.chance(1, 4):
+                call["n"] = rng.weighted([(None, 3), (1, 1), (2, 2)])
+            if rng.chance(1, 5):
+                call["weighting"] = rng.weighted([("uniform", 1), ("popular", 1)])
+            return call
+        nr = 0 if nu == 0 else rng.weighted([(0, 1), (1, 3), (2, 3), (3, 4), (5, 4), (8, 2), (10, 1)])
+        rows = [rng.below(nu) for _ in range(nr)]
+        if nr >= 2 and rng.chance(1, 3):
+            rows[1] = rows[0]
+        return {"rows": rows, "weighting": rng.weighted([("uniform", 5), ("popular", 3), ("popularity", 2)]),
+                "n": rng.weighted([(None, 5), (0, 1), (1, 2), (2, 3), (3, 2), (4, 1)]),
+                "att": rng.weighted([(-1, 1), (0, 3), (1, 4), (2, 4), (3, 3), (5, 2)]),
+                "verify": not rng.chance(1, 8), "mode": rng.weighted([("pcg", 2), ("scripted", 3)]),
+                "seed": rng.below(2 ** 32), "bias": rng.weighted([(0, 3), (1, 1), (2, 3), (3, 2)])}
+
+    calls = [gen_call()]
+    for _ in range(rng.weighted([(0, 3), (1, 3), (2, 2), (3, 1)])):
+        calls.append(gen_call(calls[-1]))
+    case = {"n_users": nu, "n_items": ni, "pairs": pairs, "calls": calls, "style": style}
     if malformed:
-        case["weighting"] = rng.choice(["Uniform", "pop", ""])
+        rng.choice(calls)["weighting"] = rng.choice(["Uniform", "pop", ""])
         case["style"] = style + "/malformed"
     return case
 
 
+def calls_of(case):
+    "the sample_negatives calls made, in order, on the ONE matrix object of the case (older corpus cases: a single call)"
+    if "calls" in case:
+        return case["calls"]
+    return [{k: case[k] for k in ("rows", "weighting", "n", "att", "verify", "mode", "seed", "bias")}]
+
+
 def gen_cases(rng, tier):
-    n = 1500 if tier == "quick" else 12000
+    n = 1000 if tier == "quick" else 8000
     return [gen_case(rng.fork(k), malformed=(k % 25 == 24)) for k in range(n)]
 
 
@@ -165,21 +186,17 @@ def build_matrix(case):
     return dsb.build().interactions().matrix()
 
 
-def run_impl(case):
-    _setup()
+def run_call(m, call):
     import warnings
 
-    m = build_matrix(case)
-    coo = m.coo_structure()
-    obs = {"shape_m": [int(m.n_rows), int(m.n_cols)],
-           "table": [[int(r), int(c)] for r, c in zip(coo.row_numbers.tolist(), coo.col_numbers.tolist())]}
-    g = Recording(case["seed"]) if case["mode"] == "pcg" else Scripted(case["seed"], case["bias"])
-    rows = np.array(case["rows"], dtype=np.int32)
+    obs = {}
+    g = Recording(call["seed"]) if call["mode"] == "pcg" else Scripted(call["seed"], call["bias"])
+    rows = np.array(call["rows"], dtype=np.int32)
     with warnings.catch_warnings(record=True) as wl:
         warnings.simplefilter("always")
         try:
-            out = m.sample_negatives(rows, weighting=case["weighting"], n=case["n"], verify=case["verify"],
-                                     max_attempts=case["att"], rng=g)
+            out = m.sample_negatives(rows, weighting=call["weighting"], n=call["n"], verify=call["verify"],
+                                     max_attempts=call["att"], rng=g)
             obs["error"] = 0
         except ValueError as e:
             obs["error"], obs["msg"] = 1, str(e)[:80]
@@ -208,6 +225,15 @@ def run_impl(case):
     return obs
 
 
+def run_impl(case):
+    _setup()
+    m = build_matrix(case)           # ONE matrix object for the whole call sequence
+    coo = m.coo_structure()
+    return {"shape_m": [int(m.n_rows), int(m.n_cols)],
+            "table": [[int(r), int(c)] for r, c in zip(coo.row_numbers.tolist(), coo.col_numbers.tolist())],
+            "calls": [run_call(m, call) for call in calls_of(case)]}
+
+
 # ---------------------------------------------------------------------------------------------
 # model side
 # ---------------------------------------------------------------------------------------------
@@ -215,26 +241,87 @@ def run_impl(case):
 W = {"uniform": "Uniform", "popular": "Popular", "popularity": "Popular"}
 
 
-def coq_term(case, obs):
-    if case["weighting"] not in W:
+def call_term(case, call, obs):
+    if call["weighting"] not in W:
         return None      # name rejected before anything is drawn: oracle only
     if obs["error"] in (2, 3) or (obs["error"] == 0 and obs["cols"] is None):
         return "false"
     pairs = sorted((p[0], p[1]) for p in case["pairs"])
     m = f"{{| m_ncols := {cz(case['n_items'])}; m_pairs := {clist(pairs, lambda p: f'({cz(p[0])}, {cz(p[1])})')} |}}"
     ds = [v for _, vs in obs["draws"] for v in vs]
-    n = "None" if case["n"] is None else f"(Some {cnat(case['n'])})"
+    n = "None" if call["n"] is None else f"(Some {cnat(call['n'])})"
     if obs["error"]:
         tail = "1%nat [] [] []"
     else:
         tail = f"0%nat {clist(obs['shape'], cz)} {clist(obs['cols'], lambda c: clist(c, cz))} {clist(obs['warnings'], cz)}"
-    return (f"agree_sample {m} {W[case['weighting']]} {cbool(case['verify'])} {cz(case['att'])} {n} "
-            f"{clist(case['rows'], cz)} {clist(ds, cz)} {tail}")
+    return (f"agree_sample {m} {W[call['weighting']]} {cbool(call['verify'])} {cz(call['att'])} {n} "
+            f"{clist(call['rows'], cz)} {clist(ds, cz)} {tail}")
+
+
+def coq_term(case, obs):
+    "every call of the sequence agrees with the (stateless) model on the draws that call made"
+    terms = [t for t in (call_term(case, c, o) for c, o in zip(calls_of(case), obs["calls"])) if t is not None]
+    if not terms:
+        return None
+    return "(" + ")\n  && (".join(terms) + ")"
 
 
 # ---------------------------------------------------------------------------------------------
 # the property as a predicate on implementation output (independent of the Coq model)
 # ---------------------------------------------------------------------------------------------
+
+
+def describe(calls, k):
+    def one(c):
+        return (f"sample_negatives(rows={c['rows']}, weighting={c['weighting']!r}, n={c['n']}, verify={c['verify']}, "
+                f"max_attempts={c['att']}, rng=<{c['mode']} {c['seed']}>)")
+    if k == 0:
+        return "call #0 " + one(calls[0])
+    return f"call #{k} " + one(calls[k]) + " on the same matrix object after " + "; ".join(f"#{j} " + one(calls[j]) for j in range(k))
+
+
+def call_oracle(case, calls, k, obs, observed):
+    call = calls[k]
+    v = []
+    where = describe(calls, k)
+    later = "" if k == 0 else ":later-call"
+    if call["weighting"] not in W:
+        if obs["error"] != 1:
+            v.append(("unknown-weighting-accepted", f"weighting {call['weighting']!r} did not raise ValueError ({where})"))
+        return v
+    cells = len(call["rows"]) * (1 if call["n"] is None else call["n"])
+    pop = case["n_items"] if call["weighting"] == "uniform" else len(observed)
+    if pop == 0 and cells > 0:
+        if obs["error"] != 1:
+            v.append(("empty-population", f"sampling from an empty population did not raise ValueError ({where})"))
+        return v
+    if obs["error"]:
+        v.append((f"unexpected-error:{obs['error']}", f"sample_negatives raised {obs.get('msg')} ({where})"))
+        return v
+    want_shape = [len(call["rows"])] if call["n"] is None else [len(call["rows"]), call["n"]]
+    if obs["shape"] != want_shape:
+        v.append(("shape", f"result shape {obs['shape']} instead of {want_shape} ({where})"))
+        return v
+    present = {c for _, c in observed}
+    bad_cells = []
+    for col in obs["cols"]:
+        for r, c in zip(call["rows"], col):
+            if not 0 <= c < case["n_items"]:
+                v.append(("range", f"sampled column {c} is not a column number (0..{case['n_items'] - 1}) ({where})"))
+            if call["weighting"] != "uniform" and c not in present:
+                v.append(("popular-unseen-column", f"popularity weighting returned column {c}, which does not occur in the data ({where})"))
+            if (r, c) in observed:
+                bad_cells.append((r, c))
+    if call["verify"]:
+        if bad_cells and not obs["warnings"]:
+            v.append(("observed-without-warning" + later,
+                      f"{len(bad_cells)} returned cell(s) {bad_cells[:4]} are observed interactions and this call raised no DataWarning: {where}"))
+        if obs["warnings"] and not bad_cells:
+            v.append(("warning-without-failure" + later,
+                      f"a DataWarning reported missing negatives but every returned cell is a true negative: {where}"))
+    elif obs["warnings"]:
+        v.append(("warning-unverified" + later, f"a verification warning was raised with verify=False: {where}"))
+    return v
 
 
 def oracle(case, obs):
@@ -243,42 +330,9 @@ def oracle(case, obs):
     if sorted(map(tuple, obs["table"])) != sorted(observed) or obs["shape_m"] != [case["n_users"], case["n_items"]]:
         v.append(("matrix-construction", "the relationship matrix does not hold the interactions it was built from"))
         return v
-    if case["weighting"] not in W:
-        if obs["error"] != 1:
-            v.append(("unknown-weighting-accepted", f"weighting {case['weighting']!r} did not raise ValueError"))
-        return v
-    cells = len(case["rows"]) * (1 if case["n"] is None else case["n"])
-    pop = case["n_items"] if case["weighting"] == "uniform" else len(observed)
-    if pop == 0 and cells > 0:
-        if obs["error"] != 1:
-            v.append(("empty-population", "sampling from an empty population did not raise ValueError"))
-        return v
-    if obs["error"]:
-        v.append((f"unexpected-error:{obs['error']}", f"sample_negatives raised {obs.get('msg')}"))
-        return v
-    want_shape = [len(case["rows"])] if case["n"] is None else [len(case["rows"]), case["n"]]
-    if obs["shape"] != want_shape:
-        v.append(("shape", f"result shape {obs['shape']} instead of {want_shape}"))
-        return v
-    present = {c for _, c in observed}
-    bad_cells = 0
-    for col in obs["cols"]:
-        for r, c in zip(case["rows"], col):
-            if not 0 <= c < case["n_items"]:
-                v.append(("range", f"sampled column {c} is not a column number (0..{case['n_items'] - 1})"))
-            if case["weighting"] != "uniform" and c not in present:
-                v.append(("popular-unseen-column", f"popularity weighting returned column {c}, which does not occur in the data"))
-            if (r, c) in observed:
-                bad_cells += 1
-    if case["verify"]:
-        if bad_cells and not obs["warnings"]:
-            v.append(("observed-without-warning", f"{bad_cells} returned cell(s) are observed interactions and no DataWarning was raised"))
-        if obs["warnings"] and not bad_cells:
-            v.append(("warning-without-failure", "a DataWarning reported missing negatives but every returned cell is a true negative"))
-        # rows with an unobserved eligible column somewhere in their own draws must not fail: replay the draws per position
-    else:
-        if obs["warnings"]:
-            v.append(("warning-unverified", "a verification warning was raised with verify=False"))
+    calls = calls_of(case)
+    for k, o in enumerate(obs["calls"]):
+        v += call_oracle(case, calls, k, o, observed)
     seen, out = set(), []
     for k, w in v:
         if k not in seen:
@@ -287,41 +341,63 @@ def oracle(case, obs):
     return out
 
 
-def nontrivial(case, obs):
-    if obs.get("error") or not case["verify"] or case["weighting"] not in W:
+def call_nontrivial(case, call, obs, observed):
+    if obs.get("error") or not call["verify"] or call["weighting"] not in W:
         return False
-    observed = {(p[0], p[1]) for p in case["pairs"]}
-    cells = len(case["rows"]) * (1 if case["n"] is None else case["n"])
+    cells = len(call["rows"]) * (1 if call["n"] is None else call["n"])
     ndraws = sum(len(vs) for _, vs in obs["draws"])
-    mixed = any(0 < sum(1 for i in range(case["n_items"]) if (r, i) in observed) < case["n_items"] for r in case["rows"])
+    mixed = any(0 < sum(1 for i in range(case["n_items"]) if (r, i) in observed) < case["n_items"] for r in call["rows"])
     return ndraws > cells and mixed
+
+
+def nontrivial(case, obs):
+    observed = {(p[0], p[1]) for p in case["pairs"]}
+    return any(call_nontrivial(case, c, o, observed) for c, o in zip(calls_of(case), obs["calls"]))
 
 
 def counters(case, obs):
     yield "style=" + case["style"]
-    yield "weighting=" + str(case["weighting"])
-    yield "n=" + str(case["n"])
-    yield "att=" + str(case["att"])
-    yield "mode=" + case["mode"]
-    yield "verify=" + str(case["verify"])
-    yield f"error={obs['error']}"
-    yield "rows=" + str(min(len(case["rows"]), 8))
-    if obs["error"] == 0:
-        yield "warnings=" + str(min(len(obs["warnings"]), 3))
-        yield "resample-rounds=" + str(min(max(len(obs["draws"]) - 1, 0), 6))
-        observed = {(p[0], p[1]) for p in case["pairs"]}
-        if any(all((r, i) in observed for i in range(case["n_items"])) for r in case["rows"]) and case["n_items"]:
-            yield "has-fully-dense-requested-row"
-        if len(set(case["rows"])) < len(case["rows"]):
-            yield "repeated-rows"
+    calls = calls_of(case)
+    yield "calls=" + str(len(calls))
+    observed = {(p[0], p[1]) for p in case["pairs"]}
+    nwarned = 0
+    for k, (call, o) in enumerate(zip(calls, obs["calls"])):
+        yield "weighting=" + str(call["weighting"])
+        yield "n=" + str(call["n"])
+        yield "att=" + str(call["att"])
+        yield "mode=" + call["mode"]
+        yield "verify=" + str(call["verify"])
+        yield f"error={o['error']}"
+        yield "rows=" + str(min(len(call["rows"]), 8))
+        if o["error"] == 0:
+            yield "warnings=" + str(min(len(o["warnings"]), 3))
+            yield "resample-rounds=" + str(min(max(len(o["draws"]) - 1, 0), 6))
+            if any(all((r, i) in observed for i in range(case["n_items"])) for r in call["rows"]) and case["n_items"]:
+                yield "has-fully-dense-requested-row"
+            if len(set(call["rows"])) < len(call["rows"]):
+                yield "repeated-rows"
+            if o["warnings"]:
+                nwarned += 1
+                if nwarned > 1:
+                    yield "call-warning-after-an-earlier-warning-on-the-same-matrix"
+    yield "calls-that-warned=" + str(min(nwarned, 3))
 
 
 def sample(case, obs):
-    return {"case": case, "observation": {k: obs.get(k) for k in ("error", "shape", "cols", "warnings", "draws")}}
+    return {"case": case, "observation": [{k: o.get(k) for k in ("error", "shape", "cols", "warnings", "draws")} for o in obs["calls"]]}
 
 
 def shrink(case, fails):
     c = dict(case)
-    c["rows"] = common.shrink_list(case["rows"], lambda xs: fails({**c, "rows": xs}), 30)
-    c["pairs"] = common.shrink_list(case["pairs"], lambda xs: fails({**c, "pairs": xs}), 40)
+    if "calls" in case:
+        c["calls"] = common.shrink_list(case["calls"], lambda xs: bool(xs) and fails({**c, "calls": xs}), 20)
+        for k in range(len(c["calls"])):
+            def with_rows(rows, k=k):
+                calls = list(c["calls"])
+                calls[k] = {**calls[k], "rows": rows}
+                return {**c, "calls": calls}
+            c = with_rows(common.shrink_list(c["calls"][k]["rows"], lambda xs: fails(with_rows(xs)), 20))
+    else:
+        c["rows"] = common.shrink_list(case["rows"], lambda xs: fails({**c, "rows": xs}), 30)
+    c["pairs"] = common.shrink_list(c["pairs"], lambda xs: fails({**c, "pairs": xs}), 40)
     return c
